@@ -807,3 +807,10 @@ func DriverCodeObject(k *Kernel, wgSize int) *insts.KernelCodeObject {
 	co.KernargSegmentByteSize = 48
 	return co
 }
+
+// DriverCodeObject3D is DriverCodeObject for kernels that use the work-item ids of all three dimensions (v0, v1, v2).
+func DriverCodeObject3D(k *Kernel) *insts.KernelCodeObject {
+	co := DriverCodeObject(k, 64)
+	co.ComputePgmRsrc2 |= 2 << 11 // enable_vgpr_workitem_id = 2: x, y, z
+	return co
+}
